@@ -149,6 +149,8 @@ enum TInstr {
     Fold(i64, i64, Vec<Operand>),
     Cutoff(Operand, CutoffD),
     Export(Operand),
+    MemoCall(usize, Option<i64>),
+    MemoNew(BindFn),
     Bind(Operand, BindFn),
 }
 #[derive(Clone)]
@@ -333,6 +335,16 @@ impl P {
                 TInstr::Cutoff(tg, Self::cutoff(&c))
             }
             "export" => TInstr::Export(self.operand()),
+            "memocall" => {
+                let m = self.nat();
+                if self.peek() == Some("lhs") {
+                    self.next();
+                    TInstr::MemoCall(m, None)
+                } else {
+                    TInstr::MemoCall(m, Some(self.int()))
+                }
+            }
+            "memonew" => TInstr::MemoNew(self.bindfn()),
             "bind" => {
                 let lhs = self.operand();
                 TInstr::Bind(lhs, self.bindfn())
@@ -343,12 +355,14 @@ impl P {
 }
 
 // ---------------------------------------------------------------- context shared with closures
+type MemoFn = Rc<dyn Fn(i64) -> I>;
 struct Ctx {
     state: WeakState,
     vars: RefCell<Vec<Option<Var<Val>>>>,
     obs: RefCell<Vec<Vec<Observer<Val>>>>,
     exports: RefCell<Vec<I>>,
     hnodes: RefCell<Vec<Option<I>>>,
+    memos: RefCell<Vec<MemoFn>>,
     foreign_node: I,
     _foreign_state: IncrState,
     inv_count: Cell<usize>,
@@ -590,6 +604,8 @@ fn subst_tinstr(lv: usize, locals: &[I], t: &TInstr) -> TInstr {
         TInstr::Fold(f, i, args) => TInstr::Fold(*f, *i, args.iter().map(so).collect()),
         TInstr::Cutoff(tg, c) => TInstr::Cutoff(so(tg), c.clone()),
         TInstr::Export(o) => TInstr::Export(so(o)),
+        TInstr::MemoCall(m, k) => TInstr::MemoCall(*m, *k),
+        TInstr::MemoNew(f) => TInstr::MemoNew(subst_bindfn(lv + 1, locals, f)),
         TInstr::Bind(lhs, f) => TInstr::Bind(so(lhs), subst_bindfn(lv + 1, locals, f)),
     }
 }
@@ -635,6 +651,8 @@ fn handles_bindfn(tbl: &[Option<I>], f: &BindFn) -> BindFn {
                                 TInstr::Fold(f, i, args) => TInstr::Fold(*f, *i, args.iter().map(so).collect()),
                                 TInstr::Cutoff(tg, c) => TInstr::Cutoff(so(tg), c.clone()),
                                 TInstr::Export(o) => TInstr::Export(so(o)),
+                                TInstr::MemoCall(m, k) => TInstr::MemoCall(*m, *k),
+                                TInstr::MemoNew(f) => TInstr::MemoNew(handles_bindfn(tbl, f)),
                                 TInstr::Bind(lhs, f) => TInstr::Bind(so(lhs), handles_bindfn(tbl, f)),
                             }
                         })
@@ -681,6 +699,11 @@ fn instantiate(state: &WeakState, lhsv: &Val, body: &[TInstr], r: &Operand) -> I
                 ctx().exports.borrow_mut().push(n);
                 continue;
             }
+            TInstr::MemoCall(m, k) => memo_call(*m, k.unwrap_or(cap)),
+            TInstr::MemoNew(f) => {
+                memo_new(state, subst_bindfn(0, &locals, f));
+                continue;
+            }
             TInstr::Bind(lhs, f) => {
                 let l = resolve(&locals, lhs);
                 mk_bind(state, &l, subst_bindfn(0, &locals, f))
@@ -689,6 +712,26 @@ fn instantiate(state: &WeakState, lhsv: &Val, body: &[TInstr], r: &Operand) -> I
         locals.push(n);
     }
     resolve(&locals, r)
+}
+/// state.weak_memoize_fn(f): the underlying function builds one template with the key as captured value
+fn memo_new(state: &WeakState, f: BindFn) {
+    let m = ctx().memos.borrow().len();
+    let st = state.clone();
+    let (body, r) = f.templates[0].clone();
+    let inner = state.upgrade().expect("harness: state gone").weak_memoize_fn(move |key: i64| {
+        user_call();
+        ev(format!("memofn {m} {key}"));
+        instantiate(&st, &Val::Int(key), &body, &r)
+    });
+    let f: MemoFn = Rc::new(move |k| {
+        let mut g = inner.clone();
+        g(k)
+    });
+    ctx().memos.borrow_mut().push(f);
+}
+fn memo_call(m: usize, key: i64) -> I {
+    let f = ctx().memos.borrow().get(m).cloned().expect("harness: no such memoised function");
+    f(key)
 }
 fn mk_bind(state: &WeakState, lhs: &I, f: BindFn) -> I {
     let rank = Rc::new(Cell::new(usize::MAX));
@@ -737,6 +780,7 @@ impl Interp {
             obs: RefCell::new(vec![]),
             exports: RefCell::new(vec![]),
             hnodes: RefCell::new(vec![]),
+            memos: RefCell::new(vec![]),
             foreign_node,
             _foreign_state: foreign,
             inv_count: Cell::new(0),
@@ -1018,6 +1062,18 @@ impl Interp {
                 drop(n);
                 "ok".into()
             }
+            "memonew" => {
+                let f = p.bindfn();
+                let f = handles_bindfn(&self.ctx.hnodes.borrow(), &f);
+                memo_new(&self.ctx.state, f);
+                "ok".into()
+            }
+            "memocall" => {
+                let m = p.nat();
+                let k = p.int();
+                let n = memo_call(m, k);
+                self.push(n)
+            }
             "dropexports" => {
                 let ex = std::mem::take(&mut *self.ctx.exports.borrow_mut());
                 drop(ex);
@@ -1074,6 +1130,8 @@ fn panic_tag(msg: &str, loc: &str) -> String {
         "SetMaxBelowSeen"
     } else if m.contains("whose defining bind is not necessary") {
         "ScopeNotNecessary"
+    } else if m.contains("within an invalid scope") {
+        "InvalidScope"
     } else if m.contains("recomputing invalid node") {
         "RecomputeInvalid"
     } else if m.contains("node was not in recompute heap") {
